@@ -80,7 +80,10 @@ def task_program(rng, i):
             p = "$ROOT/t%d/rt%d.conf" % (i, b)
             nodes.append({"p": p, "t": "f", "c": grammar.render(lines)})
             nodes.append({"p": "$ROOT/t%d/out" % i, "t": "d"})
-            blocks.append({"kind": "roundtrip", "path": p, "D": D, "out": "$ROOT/t%d/out" % i, "name": "w%d.conf" % b})
+            nodes.append({"p": "$ROOT/shared-out", "t": "d"})
+            # a third of the written files go, under names of their own, into a directory that all tasks use
+            shared = rng.chance(0.33)
+            blocks.append({"kind": "roundtrip", "path": p, "D": D, "out": "$ROOT/shared-out" if shared else "$ROOT/t%d/out" % i, "name": "w%d_%d.conf" % (i, b)})
         elif kind == "badfile":
             p = "$ROOT/t%d/bad%d.conf" % (i, b)
             n = rng.randint(0, 10)
